@@ -34,6 +34,11 @@ CLAIMS = {
          "Decides for every handler/listener program the order apply -> publish -> listeners, at most one publish per call, that a failing apply, an apply reporting no change, an empty change "
          "and every invalid call (wrong type, negative index, reserved or malformed name) reach no publish and no listener, that Event fields flow from the apply results / arguments, and that "
          "nothing between an event/reply call and Conn.Publish is asynchronous. What apply handlers and listeners do is opaque.", "DESIGN.md section 4 C08"),
+ "C07": ("funnel census + subject-template matching over concatenation trees + validator rune-class facts + struct-tag / literal vocabulary checks",
+         "Decides for every handler program that each published subject is an instance of one of the five documented templates with validated variable parts, that the token validator rejects "
+         "everything NATS forbids, that every reply envelope and every static payload literal has exactly one of result/resource/error with string code/message, that meta is only reachable "
+         "behind the HTTP and not-replied guards, that marshal output is published only when err==nil, and that pre-responses and event payload structs have the documented shape. JSON "
+         "produced by encoding/json for user values is trusted.", "DESIGN.md section 4 C07"),
 }
 
 NA = {
